@@ -106,7 +106,12 @@ def prepare(rng, sb):
 
     def stage(k):
         names = rng.sample(list(files), rng.randint(1, 3))
+        if rng.random() < 0.5 and "back\\slash.txt" not in names:
+            names.append("back\\slash.txt")
         sb.run(["cp", "-r", oid] + [os.path.join(sb.src, n) for n in names] + ["--", rng.choice(["/", "x%d/" % k, "n%d.txt" % k])])
+        if rng.random() < 0.5:
+            # a destination name with a backslash (an ordinary character in a logical path)
+            sb.run(["cp", oid, os.path.join(sb.src, "b.txt"), "--", "dir\\w%d.txt" % k])
         if rng.random() < 0.3:
             sb.run(["rm", oid, rng.choice(["a.txt", "b.txt"])])
     stage(0)
